@@ -38,6 +38,7 @@ type UploadPlan struct {
 	Action        string  `json:"action"` // "answer" | "drop" | "stall"
 	Status        int     `json:"status,omitempty"`
 	DAVError      bool    `json:"dav_error,omitempty"`
+	OwnCtx        bool    `json:"own_ctx,omitempty"`   // the caller's context is of a type of its own (its own Done channel), not one of package context's
 	RespBody      string  `json:"resp_body,omitempty"` // script, 2xx answers: "" none | "stall" (3 of 10 announced bytes, then nothing) | "slow" (the rest after 10 fake seconds) | "reset" (an error after 3 bytes)
 	AnswerDelayNS int64   `json:"answer_delay_ns"`
 	ClosePolicy   string  `json:"close_policy"` // "before-return" | "async"
@@ -275,6 +276,63 @@ func (tr *upTransport) RoundTrip(req *http.Request) (resp *http.Response, err er
 		Header: h, Body: io.NopCloser(bytes.NewReader(rb)), ContentLength: int64(len(rb)), Request: req}, nil
 }
 
+// ownCtx is a context.Context that package context knows nothing about: the
+// kind an application framework or a tracing library hands to its callers.
+type ownCtx struct {
+	mu   sync.Mutex
+	done chan struct{}
+	err  error
+}
+
+func (c *ownCtx) Deadline() (time.Time, bool) { return time.Time{}, false }
+func (c *ownCtx) Done() <-chan struct{}       { return c.done }
+func (c *ownCtx) Value(any) any               { return nil }
+func (c *ownCtx) Err() error {
+	c.mu.Lock()
+	defer c.mu.Unlock()
+	return c.err
+}
+func (c *ownCtx) cancel() {
+	c.mu.Lock()
+	defer c.mu.Unlock()
+	if c.err == nil {
+		c.err = context.Canceled
+		close(c.done)
+	}
+}
+
+func hasStack(l []string, g string) bool {
+	for _, x := range l {
+		if x == g {
+			return true
+		}
+	}
+	return false
+}
+
+// goroutineStacks splits a dump of all goroutines by goroutine id.
+func goroutineStacks(all string) map[string]string {
+	out := map[string]string{}
+	for _, g := range strings.Split(all, "\n\n") {
+		if !strings.HasPrefix(g, "goroutine ") {
+			continue
+		}
+		f := strings.Fields(g)
+		if len(f) > 1 {
+			out[f[1]] = g
+		}
+	}
+	return out
+}
+
+func goroutineIDs(all string, _ bool) map[string]bool {
+	out := map[string]bool{}
+	for id := range goroutineStacks(all) {
+		out[id] = true
+	}
+	return out
+}
+
 // lazyBody is the body of an answer that does not arrive in one piece: three
 // bytes, then - depending on the mode - nothing more ("stall": only closing it
 // or cancelling the request ends a Read), the rest after ten fake seconds
@@ -403,7 +461,16 @@ func ExecuteUpload(t *testing.T, plan *Plan, opts Opts) *RunResult {
 		}
 		start := time.Now()
 		ctx, cancel := context.WithCancel(context.Background())
+		if p.OwnCtx && !p.Deadline && p.Mode != "N" {
+			oc := &ownCtx{done: make(chan struct{})}
+			ctx, cancel = oc, oc.cancel
+		}
 		defer cancel()
+		var baseline map[string]bool
+		if p.Mode != "N" {
+			rt.Wait()
+			baseline = goroutineIDs(rt.AllStacks(), false)
+		}
 		var cancelledAt time.Time
 		switch {
 		case p.CancelAtNS == 0:
@@ -460,6 +527,19 @@ func ExecuteUpload(t *testing.T, plan *Plan, opts Opts) *RunResult {
 		cerr := wc.Close()
 		closedAt := time.Now()
 		log.Addf(0, "  Close() = %v", cerr)
+		if baseline != nil {
+			// (4b) whatever goroutine the upload started - directly or through a
+			// package it called (context.WithCancel on a foreign context type
+			// starts one) - is gone once Close has returned and things have
+			// settled; the caller's context is still alive at this point
+			rt.Wait()
+			for id, st := range goroutineStacks(rt.AllStacks()) {
+				if !baseline[id] && !strings.Contains(st, "/vsim/") && !strings.Contains(st, "testing.") {
+					leak = append(leak, st)
+				}
+			}
+			sort.Strings(leak)
+		}
 		res.Stats.FakeNS += int64(closedAt.Sub(start))
 
 		// (2) Close returns only after the transport handed back the outcome
@@ -511,7 +591,13 @@ func ExecuteUpload(t *testing.T, plan *Plan, opts Opts) *RunResult {
 		}
 		// (4) no goroutine of the library outlives Close
 		rt.Wait()
+		started := leak // (4b): goroutines that were not there before Create
 		leak = rt.LibraryGoroutines(rt.AllStacks())
+		for _, g := range started {
+			if !hasStack(leak, g) {
+				leak = append(leak, g)
+			}
+		}
 		if p.Mode == "N" {
 			// the server's handler goroutines are library frames too; what must not
 			// outlive Close is the client's goroutine
@@ -681,6 +767,7 @@ func GenC18Upload(seed uint64, tier string) *Plan {
 		if p.Status/100 == 2 && p.Action == "answer" && r.Chance(0.3) {
 			p.RespBody = rt.Pick(r, []string{"stall", "stall", "slow", "reset"})
 		}
+		p.OwnCtx = r.Chance(0.3)
 	}
 	switch r.Weighted([]int{5, 1, 3, 1}) {
 	case 0:
